@@ -57,6 +57,8 @@ type Contract struct {
 	Opaque    bool
 	Inline    bool
 	Missing   bool
+	CaseVar   string
+	CaseVals  []string
 	Unclaimed map[string]string
 	Line      string
 	// result variables introduced for unnamed results (objects created by the FuncLit wrapper)
@@ -171,6 +173,10 @@ func parseContractFile(fset *token.FileSet, f *ast.File, pkg *packages.Package) 
 				cur.Opaque = true
 			case "inline":
 				cur.Inline = true
+			case "cases":
+				w, r := splitWord(rest)
+				cur.CaseVar = w
+				cur.CaseVals = strings.Fields(r)
 			case "unclaimed":
 				w, r := splitWord(rest)
 				cur.Unclaimed[w] = r
